@@ -657,14 +657,17 @@ class CustomCtx:
             g = p.get("generate")
             if not g:
                 continue
-            got = 0
+            mine = []
             for line in g(random.Random(self.rng.getrandbits(48)), tier or "quick"):
                 if line not in seen:
                     seen.add(line)
-                    out.append(line)
-                    got += 1
-                    if limit and got >= limit:
+                    mine.append(line)
+                    if limit and len(mine) >= 60 * limit:
                         break
+            if limit and len(mine) > limit:
+                # a uniform sample of the part's cases (all of its apis), not just the first ones
+                mine = random.Random(self.rng.getrandbits(48)).sample(mine, limit)
+            out += mine
         return out
 
     def save(self, name, text):
